@@ -185,6 +185,16 @@ protected:
   */
   inline uchar *getHeader(size_t idbucket);
 
+  /** Obtaining the number of bytes of the (encoded) header which can be
+      compared with an encoded pattern. This number is limited by the bytes
+      remaining in the sequence (this is only relevant for the last
+      buckets), so the comparison never goes beyond its end.
+      @param idbucket: the bucket.
+      @param strLen: the (encoded) pattern length.
+      @returns the number of bytes to be compared.
+  */
+  inline size_t getHeaderCmpLength(size_t idbucket, size_t strLen);
+
   /** Performs the Hu-Tucker encoding of the string.
       @param str: the string to be encoded.
       @param strLen: the string length.
